@@ -28,7 +28,10 @@ echo "suite_rc=${PIPESTATUS[0]}"
 cd /verif
 for c in $CHECKS; do
   echo "== check $c quick against the changed tree"
-  VERIF_REPO="$W/repo" ./check $c quick 2>&1 | grep -E "VIOLATION|KNOWN|quick:|MACHINERY" | head -8
-  echo "check_${c}_rc=${PIPESTATUS[0]}"
+  VERIF_REPO="$W/repo" ./check $c quick > "$W/check-$c.out" 2>&1
+  rc=$?
+  grep -E "VIOLATION|MACHINERY" "$W/check-$c.out" | head -5
+  grep -E "^$c: |^$c quick:" "$W/check-$c.out" | cut -c1-400
+  echo "check_${c}_rc=$rc"
 done
 git -C /repo worktree remove --force "$W/repo"; rm -rf "$W"
